@@ -1366,6 +1366,19 @@ fn stats_par_stress(rt: &tokio::runtime::Runtime, links: usize, millis: u64) -> 
         }
     }
     stop.store(true, Ordering::Release);
+    // the threads may wedge in their very last round: never join one that has not finished
+    let t1 = std::time::Instant::now();
+    while handles.iter().any(|h| !h.is_finished()) {
+        if t1.elapsed() > std::time::Duration::from_secs(10) {
+            WEDGED.store(true, Ordering::Release);
+            return Err(format!(
+                "{links} links: after {} answered get_stats requests and {} published snapshots the reader and writer threads never came back (10 s): a snapshot reader and the housekeeping writer block each other",
+                answered.load(Ordering::Acquire),
+                published.load(Ordering::Acquire)
+            ));
+        }
+        std::thread::sleep(std::time::Duration::from_millis(5));
+    }
     for h in handles {
         let _ = h.join();
     }
